@@ -82,7 +82,13 @@ def r_conversion_history(run, tree):
     qs.check_to_stack(run, tree, only=("history",))
 
 
-RULES = [r1_inplace_twins, r2_out, r3_rhs_not_written, r4_deep_copies, r6_views, r7_end_to_end, r_conversion_history]
+def r8_current_components(run, tree):
+    run.rule("C17.R8", "a Vector IS its current components: after v.y = a, in-place operators, copies and slices act on a (the Array object now stored), not on the component "
+             "the Vector was built with (shared with C06.R4/C09.R2)", "D7 fold of the Vector class after a component re-assignment", "", floor=1)
+    cf.check_vector_component_reassigned(run, tree)
+
+
+RULES = [r1_inplace_twins, r2_out, r3_rhs_not_written, r4_deep_copies, r6_views, r7_end_to_end, r_conversion_history, r8_current_components]
 
 
 def t_pair_space(run, tree):
